@@ -274,4 +274,4 @@ End World.
 Definition eff_rrs : config -> option (list srv_rec) -> list srv_rec :=
   effective_rrs FLAG_LEGACY_SSL SRV_MAX_DOMAIN_LEN.
 Definition byp_host : config -> option (list Z) := bypass_host FLAG_LEGACY_SSL.
-Definition cfg_ok : config -> Prop := config_ok tls_conflict.
+Definition cfg_ok : config -> bool := config_ok tls_conflict.
